@@ -173,7 +173,8 @@ def random_schedule(rng, emphasis):
         r = rng.randint(1, nrem)
         t += rng.choice([0, 1, 40, 200, 1000])
         kind = rng.choices(
-            ["req", "ping", "unresp", "misfit", "matched"], weights=[6, 1, 2, 1, 2] if emphasis == "c10" else [8, 0.5, 0.5, 0.3, 0.7]
+            ["req", "ping", "unresp", "misfit", "matched", "mcreq"],
+            weights=[6, 1, 2, 1, 2, 0.7] if emphasis == "c10" else [8, 0.5, 0.5, 0.3, 0.7, 0.1]
         )[0]
         mid = peer_mid[r]
         peer_mid[r] = (peer_mid[r] + 1) & 0xFFFF
@@ -215,6 +216,10 @@ def random_schedule(rng, emphasis):
         elif kind == "misfit":
             ty, code = rng.choice([("ACK", 1), ("RST", 2), ("RST", 69), ("NON", 0)])
             steps.append({"at": t, "do": "rx", "r": r, "ty": ty, "code": code, "mid": mid, "tok": newtok() if code else ""})
+        elif kind == "mcreq":
+            # the application asks for a (reliable) request to a multicast address: never a CON on the wire
+            q += 1
+            steps.append({"at": t, "do": "submit", "q": q, "r": r, "con": rng.choice([True, None, False]), "mc": True})
         elif kind == "matched":
             q += 1
             steps.append({"at": t, "do": "submit", "q": q, "r": r, "con": rng.choice([True, False]), "f": 0.5})
